@@ -192,6 +192,10 @@ def check_C16(run):
 
 def check_C17(run):
     run.model_check("Match_3", "MC_Match.tla", "MC_Match_3.cfg", coverage=False)
+    # the shared queue array of the shortest-path search: the repaired layout never reads back an overwritten entry; the
+    # layout before the repair (DESIGN 9.18) is shown violated by TLC
+    run.model_check("Mc64Q", "SluMc64Q.tla", "SluMc64Q.cfg", coverage=False)
+    run.model_check("Mc64Q_legacy", "SluMc64Q.tla", "SluMc64Q_legacy.cfg", expect_violation=True, coverage=False)
     if run.tier != "quick":
         run.model_check("Match_4", "MC_Match.tla", "MC_Match_4.cfg", coverage=False)
     g = Gen(run.seed * 1000 + 17)
